@@ -137,8 +137,14 @@ type ACME struct {
 // one). A generation of authority A (standing for a tick or for the regeneration of a revocation being served by A)
 // is parked inside its critical section at Park; authority B is built on A's db handle; optionally a revocation with
 // generate-on-revoke is served by B; then A's generation is released.
+//
+// Park = "window-old" / "window-new": nothing is parked; the reload window itself (both authorities alive on one database, ca.Reload
+// between New and CloseForReload, where the HTTP servers are swapped while requests in flight finish): authority B is built on A's
+// database; then a revocation is served by the OLD authority A (window-old) or by the new one B (window-new); then A is closed. The
+// list the *other* authority serves afterwards (what a client of the swapped server sees) must carry the acknowledged serial and a
+// number not below the one already served.
 type Inflight struct {
-	Park   string // after-getcrl | after-list
+	Park   string // after-getcrl | after-list | window-old | window-new
 	Revoke bool
 }
 
@@ -1150,6 +1156,58 @@ func runInflight(f *Inflight) (string, string, string) {
 	}
 	a := must(fixture.New(fixture.Opts{CRL: cfg(), WrapDB: ss.Wrap(hooks)}))
 	defer os.RemoveAll(a.DBDir)
+	if f.Park == "window-old" || f.Park == "window-new" {
+		ea := &env{ca: a}
+		crtA := ea.issue() // issued before the reload
+		b := must(fixture.New(fixture.Opts{CRL: cfg(), NoDB: true, From: a, Extra: []authority.Option{authority.WithDatabase(a.Auth.GetDatabase())}}))
+		eb := &env{ca: b}
+		first := eb.fetch() // the new authority's start-up list
+		revoker, other := ea, eb
+		if f.Park == "window-new" {
+			revoker, other = eb, ea
+		}
+		serial := crtA.SerialNumber.String()
+		var problems []string
+		if revoker.revokeToken(serial) != 200 {
+			problems = append(problems, "revocation-refused")
+		}
+		acked := revoker.fetch() // what the client that revoked sees
+		seen := other.fetch()    // what a client of the other server sees right away
+		a.Auth.CloseForReload()
+		final := eb.fetch() // and after the old authority is gone
+		for name, l := range map[string]*list{"other-authority": seen, "after-close": final} {
+			if l.bad != "" {
+				problems = append(problems, name+"-"+l.bad)
+				continue
+			}
+			if l.num < acked.num || l.num < first.num {
+				problems = append(problems, fmt.Sprintf("%s-served-number-went-back-%d-after-%d", name, l.num, acked.num))
+			}
+			found := false
+			for _, en := range l.entries {
+				if strings.HasPrefix(en, c.X(serial)+":") {
+					found = true
+				}
+			}
+			if !found {
+				problems = append(problems, name+"-acknowledged-revocation-missing-from-served-list")
+			}
+		}
+		mu.Lock()
+		for i := 1; i < len(stored); i++ {
+			if stored[i] <= stored[i-1] {
+				problems = append(problems, fmt.Sprintf("stored-number-%d-after-%d", stored[i], stored[i-1]))
+				break
+			}
+		}
+		mu.Unlock()
+		b.Auth.Shutdown()
+		if len(problems) > 0 {
+			sort.Strings(problems)
+			return in, "VIOLATION " + strings.Join(problems, ","), "ok"
+		}
+		return in, "ok", "ok"
+	}
 	atomic.StoreInt32(&armed, 1)
 	g := make(chan error, 1)
 	go func() { g <- a.Auth.GenerateCertificateRevocationList() }()
@@ -1547,7 +1605,8 @@ func main() {
 			runCase(o, &Case{Race: &Race{GOR: !rr.Chance(1, 3), Revokers: 1 + rr.Intn(8), Gens: rr.Intn(4), Fetchers: rr.Intn(3)}})
 		}
 	case "cacrl":
-		for _, cc := range []CACRL{{D1: 3600, D2: 7200, Reload: true}, {D1: 86400, D2: 3600, Reload: true}, {D1: 600, Reload: false}} {
+		for _, cc := range []CACRL{{D1: 3600, D2: 7200, Reload: true}, {D1: 86400, D2: 3600, Reload: true}, {D1: 600, Reload: false},
+			{D1: 3600, D2: 1800, Reload: true, Bundle: true}, {D1: 7200, Reload: false, Bundle: true}} {
 			cc := cc
 			runCase(o, &Case{CACRL: &cc})
 		}
@@ -1585,7 +1644,7 @@ func main() {
 		}
 	case "inflight":
 		log.SetOutput(io.Discard)
-		for _, f := range []Inflight{{"after-getcrl", false}, {"after-list", false}, {"after-getcrl", true}, {"after-list", true}} {
+		for _, f := range []Inflight{{"after-getcrl", false}, {"after-list", false}, {"after-getcrl", true}, {"after-list", true}, {"window-old", true}, {"window-new", true}} {
 			f := f
 			runCase(o, &Case{Inflight: &f})
 		}
